@@ -169,9 +169,16 @@ def main():
             shutil.rmtree(d, ignore_errors=True)
 
     items = []
+    lo, hi = (int(x) for x in opts.get("lines", "0-100000000").split("-"))
+    only = opts.get("only")            # file with "line|what" keys of the mutants to re-run
+    keys = set(open(only).read().split("\n")) if only else None
     for item in mutants(os.path.join("/repo/unyt", rel), fnames):
         if len(items) >= mx:
             break
+        if not (lo <= item[0]["line"] <= hi):
+            continue
+        if keys is not None and "%d|%s" % (item[0]["line"], item[0]["what"]) not in keys:
+            continue
         items.append(item)
     with open(out, "w") as fo, ThreadPoolExecutor(par) as tp:
         for info in tp.map(one, items):
